@@ -1087,6 +1087,12 @@ void TorqueMuscleFunctionFactory::createPassiveTorqueAngleCurve(
 
     double delta = min( 0.1*(1.0-abs(1.0/stiffnessAtOneNormTorque)),
                         0.05*abs(x1-x0));
+    //abs(stiffnessAtOneNormTorque) <= 1 is admissible for angle ranges wider
+    //than 1.1 radians; the first expression is then not positive and the toe
+    //section would run backwards from angleAtZeroTorque
+    if(delta <= 0.) {
+      delta = 0.05*abs(x1-x0);
+    }
     if(stiffnessAtOneNormTorque < 0.) {
       delta *= -1.0;
     }
